@@ -397,7 +397,159 @@ def rule_variational_mirror(ctx):
                 n, floor=3, samples=samples[:4])
 
 
+def rule_rescale_integrator_state(ctx):
+    """R16.7: rescaling divides a variational configuration by `scale`. The variational equations are linear, so the step
+    that follows is unchanged up to that factor only if *all* state linear in the variation is divided too. IAS15 keeps such
+    state between steps: every per-coordinate double array that reb_integrator_ias15_alloc sizes (compensated-summation
+    terms, predictor coefficients, saved positions). The set of arrays the allocator grows must equal the set the rescaler
+    divides by the same scale, over the coordinates of the configuration."""
+    tus = cfront.load_tus(['tools.c', 'integrator_ias15.c'])
+    alloc = tus['integrator_ias15.c'].func('reb_integrator_ias15_alloc')
+    arrays, dp7s = set(), set()
+    for e in walk(cfront.body(alloc)):
+        if is_assign(e) and e['opcode'] == '=':
+            rhs = strip(e['inner'][1], casts=True)
+            if rhs.get('kind') == 'CallExpr' and callee_name(rhs) == 'realloc' and 'double' in qtype(strip(e['inner'][0])):
+                arrays.add(render(e['inner'][0]).split('.')[-1])
+        if e.get('kind') == 'CallExpr' and callee_name(e) == 'realloc_dp7':
+            dp7s.add(render(call_args(e)[0]).replace('&', '').replace('(', '').replace(')', '').split('.')[-1])
+    anchor(len(arrays) >= 7 and len(dp7s) >= 6, 'double arrays (%s) and dp7 blocks (%s) grown by reb_integrator_ias15_alloc' % (sorted(arrays), sorted(dp7s)))
+    fn = tus['tools.c'].func('reb_simulation_rescale_var')
+    # the IAS15 branch
+    branch = None
+    for ifs in walk(cfront.body(fn)):
+        if ifs.get('kind') == 'IfStmt' and render(ifs['inner'][0]).replace(' ', '') == '(r.integrator==REB_INTEGRATOR_IAS15)':
+            branch = ifs['inner'][1]
+    n = 0
+    where = 'src/tools.c reb_simulation_rescale_var'
+    if branch is None:
+        for a_ in sorted(arrays | dp7s):
+            n += 1
+            ctx.report('R16.7', 'rescale:ias15:' + a_, where, 'IAS15 keeps %s for every coordinate between steps; rescaling the variational particles does not divide it by the same factor, so the next step mixes old-scale and new-scale state' % a_)
+        ctx.covered('R16.7', 'rescaling covers the integrator state that is linear in the variation (IAS15 arrays from the allocator)', n, floor=13)
+        return
+    divided = set()
+    tables = {}
+    for d in walk(branch):
+        if d.get('kind') == 'VarDecl' and '[' in qtype(d) and 'reb_dp7' in qtype(d):
+            tables[d['name']] = {render(x).replace('&', '').replace('(', '').replace(')', '').split('.')[-1] for x in walk(d) if x.get('kind') == 'MemberExpr' and 'reb_dp7' in qtype(x)}
+    pk = {}
+    for e in walk(branch):
+        if is_assign(e) and e['opcode'] == '/=' and render(e['inner'][1]) == 'scale':
+            lv = strip(e['inner'][0])
+            if lv.get('kind') == 'ArraySubscriptExpr':
+                base = strip(lv['inner'][0], casts=True)
+                txt = render(base)
+                if base.get('kind') == 'MemberExpr' and re.match(r'^p[0-6]$', base['name']):
+                    owner = render(base['inner'][0])
+                    pk.setdefault(owner, set()).add(base['name'])
+                else:
+                    divided.add(txt.split('.')[-1])
+    for owner, ps in pk.items():
+        if ps == {'p%d' % i for i in range(7)}:
+            o = owner.replace('(', '').replace(')', '').replace('*', '').replace('&', '')
+            m_ = re.match(r'^(\w+)\[', o)
+            if m_ and m_.group(1) in tables:
+                divided |= tables[m_.group(1)]
+            else:
+                divided.add(o.split('.')[-1])
+        else:
+            ctx.report('R16.7', 'rescale:ias15:dp7:%s' % owner, where, 'only %s of the seven coefficient arrays of %s are rescaled' % (sorted(ps), owner))
+    for a_ in sorted(arrays | dp7s):
+        n += 1
+        if a_ not in divided:
+            ctx.report('R16.7', 'rescale:ias15:' + a_, where, 'IAS15 array %s (sized by reb_integrator_ias15_alloc for every coordinate) is not divided by scale when a variational configuration is rescaled' % a_)
+    # the loop covers the coordinates of the configuration: 3*index .. 3*(index+N)
+    loops = [f for f in walk(branch) if f.get('kind') == 'ForStmt']
+    n += 1
+    start = ''
+    if loops:
+        for d in walk(loops[0]['inner'][0]):
+            if d.get('kind') == 'VarDecl' and 'init' in d:
+                ini = [c_ for c_ in d.get('inner', []) if c_.get('kind') not in ('FullComment',)]
+                start = render(ini[-1]).replace(' ', '').replace('(', '').replace(')', '')
+    if start != '3*vc.index':
+        ctx.report('R16.7', 'rescale:ias15:range', where, 'the IAS15 state is not rescaled over the coordinates 3*index .. 3*(index+N) of the configuration')
+    ctx.covered('R16.7', 'rescaling covers the integrator state that is linear in the variation: the %d arrays the IAS15 allocator sizes per coordinate are all divided by the same scale' % len(arrays | dp7s),
+                n, floor=13, samples=['allocator: %s + %s; rescaler divides %s' % (sorted(arrays), sorted(dp7s), sorted(divided))])
+
+
+def rule_order_discriminated_members(ctx):
+    """R16.8: a variational configuration is a tagged record: index_1st_order_a/b are only assigned by the second-order
+    constructor. A read of such a member must be guarded by a test of the `order` of the *same* configuration; otherwise
+    it reads whatever realloc left there (first-order configurations), and decisions taken on it are arbitrary."""
+    tus = cfront.load_tus()
+    ctor_sets = {}
+    for c, tu in tus.items():
+        for fname, fn in tu.funcs.items():
+            if cfront.basename(fn.get('_locfile') or fn.get('_file')) != c:
+                continue
+            assigned = {}
+            for e in walk(cfront.body(fn)):
+                if is_assign(e) and e['opcode'] == '=':
+                    lv = strip(e['inner'][0])
+                    if lv.get('kind') == 'MemberExpr' and 'reb_variational_configuration' in qtype(strip(lv['inner'][0])):
+                        assigned[lv['name']] = render(e['inner'][1])
+            if 'order' in assigned and any(callee_name(x) == 'realloc' for x in walk(cfront.body(fn)) if x.get('kind') == 'CallExpr'):
+                ctor_sets[fname] = assigned
+    anchor(len(ctor_sets) >= 2, 'constructors of struct reb_variational_configuration (found %s)' % sorted(ctor_sets))
+    allm = set().union(*[set(v) for v in ctor_sets.values()])
+    def placeholder(v, m_):
+        return m_ not in v or re.match(r'^-?\d+(\.\d*)?$', v[m_].strip('()')) is not None
+    # meaningful only for some orders: not assigned, or assigned a literal placeholder, by at least one constructor while another stores a real value
+    partial = {m_ for m_ in allm if m_ not in ('order', 'lrescale') and any(placeholder(v, m_) for v in ctor_sets.values()) and any(not placeholder(v, m_) for v in ctor_sets.values())}
+    orders = {m_: sorted({v['order'] for v in ctor_sets.values() if not placeholder(v, m_)}) for m_ in partial}
+    n = 0
+    samples = []
+    for c, tu in sorted(tus.items()):
+        for fname, fn in sorted(tu.funcs.items()):
+            if cfront.basename(fn.get('_locfile') or fn.get('_file')) != c or fname in ctor_sets:
+                continue
+            conds = c08_conditions(fn)
+            for e in walk(cfront.body(fn)):
+                if e.get('kind') != 'MemberExpr' or e['name'] not in partial or 'reb_variational_configuration' not in qtype(strip(e['inner'][0])):
+                    continue
+                n += 1
+                base = render(e['inner'][0]).replace(' ', '')
+                stack = conds.get(id(e), [])
+                guarded = any((base + '.order') in cnd.replace(' ', '') for cnd in stack)
+                where = 'src/%s:%s %s' % (c, line_of(e), fname)
+                if not guarded:
+                    ctx.report('R16.8', '%s:%s.%s' % (fname, base, e['name']), where,
+                               '%s.%s is read without a test of %s.order: only the order-%s constructor stores a meaningful value there, for other configurations it is a placeholder or whatever realloc returned'
+                               % (base, e['name'], base, '/'.join(orders[e['name']])))
+                else:
+                    samples.append('%s: %s.%s under a test of %s.order' % (where, base, e['name'], base))
+    ctx.covered('R16.8', 'members of a variational configuration that only some constructors assign (%s) are read under a test of the same configuration\'s order' % sorted(partial), n, floor=2, samples=samples[:4])
+
+
+def c08_conditions(fn):
+    """{id(node): [rendered conditions of the enclosing ifs (negated for else branches)]} for every node of fn."""
+    out = {}
+
+    def rec(n, stack):
+        out[id(n)] = stack
+        if n.get('kind') == 'IfStmt':
+            c = render(n['inner'][0])
+            rec(n['inner'][0], stack)
+            rec(n['inner'][1], stack + [c])
+            if len(n['inner']) > 2:
+                rec(n['inner'][2], stack + ['!(' + c + ')'])
+            return
+        if n.get('kind') == 'BinaryOperator' and n.get('opcode') == '&&':
+            rec(n['inner'][0], stack)
+            rec(n['inner'][1], stack + [render(n['inner'][0])])
+            return
+        for ch in n.get('inner', []) or []:
+            if isinstance(ch, dict):
+                rec(ch, stack)
+    rec(cfront.body(fn), [])
+    return out
+
+
 def run(ctx):
+    rule_rescale_integrator_state(ctx)
+    rule_order_discriminated_members(ctx)
     rule_variational_mirror(ctx)
     rule_names(ctx)
     rule_rescale(ctx)
